@@ -188,7 +188,9 @@ class PtnFilterChord(PtnFilter):
             A boolean on filter result
         """
 
-        return data not in self.ar if self.invert_filter else data in self.ar
+        # ``data in self.ar`` is an element-wise any(): compare whole rows
+        found = bool(np.any(np.all(self.ar == np.asarray(data), axis=1)))
+        return not found if self.invert_filter else found
 
     class Option:
         """The methods available to use in fromChord
